@@ -10,6 +10,13 @@
     * direct writer   : the one-slot semaphore — `enter w` needs `owner = none`, `endWrite` releases it;
     * coalescing writer: the single flusher goroutine — only it enters the socket, one buffer of the
                           flush at a time (`owner` = the buffer it is writing, `todo` = the buffers left).
+  SHUTDOWN: `closeWithError` calls `c.cancel()` (closing the writers' `quit` channel: `St.quit`) BEFORE `c.close()` (`St.closed`);
+  in between the socket still accepts bytes. `cancelCtx w` / `shutQuit` close quit, `closeFinish w` / `shutdown` close the
+  socket. A writer parked in writeContext's first select leaves with `(0, closed)` (`quit w`); the flusher, at its select,
+  takes the quit branch (`flusherQuit`, then `St.gone`): it tells every queued writer `(0, io.EOF)` (`quit w` of a queued
+  writer) and returns — nothing is written. Go's select is free to prefer a timer tick / a hand-over / the semaphore even
+  when quit is closed, so `tick`, `enqueue`, `enter` stay enabled until `flusherQuit` (the model has those behaviours).
+  `Cfg.flushOnQuit = true` is the variant "one last flush on quit" (counterexample `C07_cex_last_flush_on_quit` only).
   `Cfg.serialised = false` switches the semaphore off; it exists only for the necessity counterexample
   (`C07_cex_without_semaphore`): every theorem requires `serialised = true`.
 -/
@@ -82,10 +89,23 @@ def Pc.sent : Pc → Nat
   | .done n _ => n
   | _ => 0
 
+/-- the result `writeContext` hands to its caller, once the control state says it is determined: `(n, err == nil)` -/
+def Pc.outcome : Pc → Option (Nat × Bool)
+  | .cancelled => some (0, false)
+  | .wrote n ok => some (n, ok)
+  | .failing n => some (n, false)
+  | .closer n => some (n, false)
+  | .done n ok => some (n, ok)
+  | _ => none
+
 structure Cfg where
   lens : Nat → Nat          -- frame length of each writer (= request)
   coalesce : Bool           -- which of the two writers the connection uses
   serialised : Bool := true -- the semaphore / single-flusher discipline (false: only for the necessity counterexample)
+  /-- the flusher's disposition of its queue when it sees `quit`. `false` = conn.go as it is: every queued writer is
+      told `(0, io.EOF)`, nothing is written. `true` = the variant "one last flush on quit" (only for the
+      counterexample `C07_cex_last_flush_on_quit`): every theorem about the shutdown leg requires `false`. -/
+  flushOnQuit : Bool := false
 
 structure St where
   wire : List Piece
@@ -96,6 +116,9 @@ structure St where
   flushing : Bool
   closing : Bool       -- c.closed: some caller has begun closeWithError (later callers return at once)
   closed : Bool        -- the socket is closed (closeWithError's tail): nothing is accepted any more
+  quit : Bool := false -- the writers' `quit` channel is closed (closeWithError: `c.cancel()`, which PRECEDES `c.close()`)
+  gone : Bool := false -- coalescer: the flusher goroutine has taken its `<-w.quit` branch (it serves its queue and returns)
+  ext : Bool := false  -- a `Conn.Close()` from outside is between its `cancel()` and its `c.close()`
 
 inductive Act where
   | submit (w : Nat)             -- exec calls writeContext
@@ -105,15 +128,26 @@ inductive Act where
   | enter (w : Nat)              -- socket Write of the frame of `w` begins
   | piece (w : Nat) (k : Nat)    -- the transport takes the next `k` bytes of it
   | endWrite (w : Nat) (ok : Bool) -- the socket Write returns (bytes so far, nil / an error of any kind)
-  | quit (w : Nat)               -- connection closed: a waiting / enqueued writer gets (0, closed)
+  | quit (w : Nat)               -- quit is closed: a waiting writer / (flusher gone) an enqueued writer gets (0, closed)
   | ret (w : Nat)                -- writeContext returns to exec
   | close (w : Nat)              -- exec calls closeWithError: the first caller becomes the closer, later ones return
   | closeFinish (w : Nat)        -- the closer has told the outstanding calls and closes the socket
-  | shutdown                     -- Conn.Close() from outside (closeWithError(nil): no calls to tell)
+  | shutdown                     -- Conn.Close() from outside (closeWithError(nil): no calls to tell), to completion
+  | cancelCtx (w : Nat)          -- the closer calls `c.cancel()`: the writers' quit channel closes (socket still open)
+  | shutQuit                     -- Conn.Close() from outside up to and including `c.cancel()` (socket still open)
+  | flusherQuit                  -- coalescer: the flusher's select takes `<-w.quit` (possible at its select only)
 deriving Repr
 
+/-- the writer "takes the next one": the flusher takes a timer tick (a new batch), or a direct writer acquires the
+    semaphore. After a Write that ended torn this is exactly the excluded condition of known finding KF-C07-1. -/
+def Act.takesNext (coalesce : Bool) : Act → Bool
+  | .tick => true
+  | .enter _ => !coalesce
+  | _ => false
+
 def init : St :=
-  { wire := [], pc := fun _ => .idle, owner := none, queue := [], todo := [], flushing := false, closing := false, closed := false }
+  { wire := [], pc := fun _ => .idle, owner := none, queue := [], todo := [], flushing := false, closing := false, closed := false,
+    quit := false, gone := false, ext := false }
 
 def setPc (pc : Nat → Pc) (w : Nat) (v : Pc) : Nat → Pc := fun x => if x = w then v else pc x
 def setMany (pc : Nat → Pc) (ws : List Nat) (v : Pc) : Nat → Pc := fun x => if x ∈ ws then v else pc x
@@ -125,11 +159,11 @@ def step (cfg : Cfg) (s : St) : Act → Option St
   | .cancel w =>
       if s.pc w = .waiting then some { s with pc := setPc s.pc w .cancelled } else none
   | .enqueue w =>
-      if cfg.coalesce = true ∧ s.pc w = .waiting ∧ s.flushing = false then
+      if cfg.coalesce = true ∧ s.pc w = .waiting ∧ s.flushing = false ∧ s.gone = false then
         some { s with pc := setPc s.pc w .queued, queue := s.queue ++ [w] }
       else none
   | .tick =>
-      if cfg.coalesce = true ∧ s.flushing = false ∧ s.queue ≠ [] then
+      if cfg.coalesce = true ∧ s.flushing = false ∧ s.queue ≠ [] ∧ s.gone = false then
         some { s with flushing := true, todo := s.queue, queue := [] }
       else none
   | .enter w =>
@@ -163,7 +197,9 @@ def step (cfg : Cfg) (s : St) : Act → Option St
         else none
       | _ => none
   | .quit w =>
-      if s.closed = true ∧ (s.pc w = .waiting ∨ (s.pc w = .queued ∧ w ∉ s.todo)) then
+      -- writeContext's first select sees `quit` (waiting), or the flusher, in its quit branch, tells a queued writer
+      -- `(0, io.EOF)` (one `resultChan <- result` per queued writer, then it returns)
+      if (s.quit = true ∧ s.pc w = .waiting) ∨ (s.gone = true ∧ s.pc w = .queued ∧ w ∉ s.todo) then
         some { s with pc := setPc s.pc w (.wrote 0 false), queue := s.queue.filter (· ≠ w) }
       else none
   | .ret w =>
@@ -178,9 +214,25 @@ def step (cfg : Cfg) (s : St) : Act → Option St
       | _ => none
   | .closeFinish w =>
       match s.pc w with
-      | .closer n => some { s with pc := setPc s.pc w (.done n false), closed := true }
+      | .closer n => if s.quit = true then some { s with pc := setPc s.pc w (.done n false), closed := true } else none
       | _ => none
-  | .shutdown => some { s with closing := true, closed := true }
+  | .shutdown => some { s with closing := true, closed := true, quit := true, ext := false }
+  | .cancelCtx w =>
+      match s.pc w with
+      | .closer _ => some { s with quit := true }
+      | _ => none
+  | .shutQuit =>
+      if s.closing = false then some { s with closing := true, quit := true, ext := true } else none
+  | .flusherQuit =>
+      if cfg.coalesce = true ∧ s.quit = true ∧ s.flushing = false ∧ s.gone = false then
+        if cfg.flushOnQuit = true then
+          -- VARIANT (not conn.go): `w.flush(resultChans, buffers); return`
+          some { s with gone := true, flushing := !s.queue.isEmpty, todo := s.queue, queue := [] }
+        else
+          -- conn.go: `for _, resultChan := range resultChans { resultChan <- (0, io.EOF) }; return` — the deliveries are
+          -- the `quit w` actions of the queued writers, enabled from now on
+          some { s with gone := true }
+      else none
 
 def run (cfg : Cfg) : St → List Act → Option St
   | s, [] => some s
